@@ -436,6 +436,7 @@ func (w *socksWorld) run(u *sunit) (note string) {
 			return
 		}
 		cli.SetReadDeadline(time.Time{})
+		cli.SetWriteDeadline(time.Now().Add(5 * time.Second))
 		tun := apicommon.NewPacketOverStreamTunnel(cli)
 		tun.Write(data)
 		// then an honest datagram on the same association: it must still be relayed and answered
@@ -687,7 +688,17 @@ func TestHostileSocks(t *testing.T) {
 			defer wg.Done()
 			n := 0
 			for u := range ch {
-				note := w.run(&u)
+				// a unit that does not come back (a peer of the driver blocked for good) must not stop the run: it is recorded
+				// and the worker goes on with fresh endpoints
+				res := make(chan string, 1)
+				go func(w *socksWorld, u sunit) { res <- w.run(&u) }(w, u)
+				var note string
+				select {
+				case note = <-res:
+				case <-time.After(25 * time.Second):
+					note = "unit did not return within 25 s"
+					w = newSocksWorld(int64(1000 + u.ID))
+				}
 				semit(sevent{Ev: "R", ID: u.ID, World: u.World, M: u.M, Ok: !strings.Contains(note, "did not return"), Note: note})
 				n++
 				if n%10 == 0 {
